@@ -11,7 +11,7 @@ histories of **any** length:
   violation `translate_three_frames_not_rect` of the one excluded case);
 * `step_names_nodup` / `run_names_nodup` — names stay pairwise distinct unless the caller edits names;
 * `step_refines` / `run_refines` — refinement to the plain-list reference model `Gv.Spec.stepOp`, for
-  all 26 operations of the history language;
+  all 27 operations of the history language;
 * `lookup_paths_agree`, `idByName_spec`, `byName_found_iff`, `obs_*` — the access paths agree;
 * `add_wrong_length_rejected` — a sequence of the wrong length is rejected, state unchanged.
 
@@ -107,6 +107,14 @@ theorem step_inv (b : Bag) (h : Inv b) (op : Op) (hw : OpWF b op) : Inv (stepOp 
       · exact h
       · rename_i r hr
         exact inv_replaceChar name site c b h r hr
+  | rmGapSites num den ends =>
+    simp only [stepOp]
+    split
+    · exact h
+    · split
+      · exact h
+      · rename_i r hr
+        exact inv_removeGapSites _ ends b h r hr
 
 /-- **Every reachable state satisfies the invariant**: induction over histories of any length, from
 any state satisfying it (in particular from the empty containers). -/
@@ -359,6 +367,14 @@ theorem step_rect (b : Bag) (h : Rect b) (op : Op) (hw : RectOK b op) : Rect (st
       · exact h
       · rename_i r hr
         exact rect_replaceChar name site c h r hr
+  | rmGapSites num den ends =>
+    simp only [stepOp]
+    split
+    · exact h
+    · split
+      · exact h
+      · rename_i r hr
+        exact rect_removeGapSites _ ends h r hr
 
 /-- **Every reachable alignment is rectangular**: induction over histories of any length. -/
 theorem run_rect (ops : List Op) (b : Bag) (h : Rect b) (hw : HistRectOK b ops) : Rect (finalState b ops) := by
@@ -449,10 +465,10 @@ def OpWFR (b : Bag) : Op → Prop
   | .sample _ perm => IsPerm perm b.rows.length
   | _ => True
 
-/-- **One step refines the reference model** — every one of the 26 operations of the history
+/-- **One step refines the reference model** — every one of the 27 operations of the history
 language (`add`, `ignore`, `clear`, `append`, `concat`, `rename`, `appendId`, `cleanNames`, `trimNames`,
 `trimAuto`, `sort`, `permute`, `filter`, `dedup`, `rmSeqs`, `translate`, `clone`, `sample`, `toUpper`,
-`toLower`, `replace`, `setChar`, `trimSeqs`, `autoAlpha`, `revcomp`, `replaceChar`), arbitrary arguments: whenever the reference
+`toLower`, `replace`, `setChar`, `trimSeqs`, `autoAlpha`, `revcomp`, `replaceChar`, `rmGapSites`), arbitrary arguments: whenever the reference
 specifies the outcome of the operation on the observable content, the Go-shaped model yields exactly
 that content (names, row order, residues, policy, alphabet, kind) and that status, and the strong
 invariant holds again. -/
@@ -487,6 +503,7 @@ theorem step_refines (b : Bag) (h : Good b) (op : Op) (hw : OpWFR b op)
     | autoAlpha => exact ref_autoAlpha h
     | revcomp => exact ref_revcomp h
     | replaceChar name site c => exact ref_replaceChar h name site c
+    | rmGapSites num den ends => exact ref_rmGapSites h num den ends
   exact this s' st hs
 
 /-- the reference model run over a history: final content and the status of every step; `none` as
